@@ -2,7 +2,7 @@
 
 Oracle: SHA-256 of the output file.
   process boundary  `python -m tlexport.main` in fresh interpreters with PYTHONHASHSEED in {0,1,2,3,random...}, three working directories, varied environment
-                    (TZ, LANG, COLUMNS, HOME), repeated runs: all outputs of one (capture, secrets, options) must be byte-identical (fork() does not re-seed str/bytes
+                    (TZ, LANG, COLUMNS, HOME, the interpreter's PYTHONOPTIMIZE / PYTHONUTF8 / PYTHONIOENCODING), repeated runs: all outputs of one (capture, secrets, options) must be byte-identical (fork() does not re-seed str/bytes
                     hashing, so hash-seed variation needs real processes);
   in-process        run() is called for capture A and then for capture B in the same process: B's output must equal B's output from a fresh process (nothing
                     processed by an earlier run may leak into a later one).
@@ -12,15 +12,51 @@ CIDs, several connections sharing hosts, mixed with TLS.
 import hashlib
 import random
 
-from vlib import corpus, netsynth as ns, e2e, engine, gen, outparse, quicsynth, runner, scene, tcpcap
+from vlib import corpus, netsynth as ns, e2e, engine, gen, outparse, quicsynth, runner, scene, suites, tcpcap
 
 
-def make_scene(rng):
+def damage(items, flows, rng):
+    """a capture as a lossy or hostile path leaves it: a few payloads of every connection are shortened records (length field adjusted, so the record is no whole
+    number of cipher blocks any more), flipped or overwritten.  The export is whatever TLExport makes of it - it only has to be the same every time."""
+    from checks.c03 import reframe
+    idx = [i for i, it in enumerate(items) if it.tag == "quic" or (it.seg is not None and it.seg.payload)]
+    picks = [(i, None) for i in rng.sample(idx, min(len(idx), rng.randrange(1, 2 + len(flows) * 2)))]
+    for k, fl in enumerate(flows):       # and every TLS connection has one protected application record of the wrong size
+        recs = [i for i in idx if items[i].conn == k and items[i].tag != "quic" and items[i].seg.payload[0] == 23 and (i, None) not in picks]
+        if recs:
+            picks.append((rng.choice(recs), rng.choice(["shorten-record", "junk-record"])))
+    for i, forced in picks:
+        it = items[i]
+        kind = forced or rng.choice(["shorten-record", "shorten-record", "flip", "overwrite", "junk-record"])
+
+        def mod(p, kind=kind):
+            p = bytearray(p)
+            if len(p) < 8:
+                return bytes(p)
+            whole = it.tag != "quic" and p[0] in (20, 21, 22, 23) and p[1] == 3 and 5 + int.from_bytes(p[3:5], "big") <= len(p)
+            if kind == "shorten-record" and whole and int.from_bytes(p[3:5], "big") > 40:
+                n = int.from_bytes(p[3:5], "big")
+                k = rng.randrange(1, 16)
+                return bytes(p[:3]) + (n - k).to_bytes(2, "big") + bytes(p[5:5 + n - k]) + bytes(p[5 + n:])
+            if kind == "junk-record" and whole:
+                n = int.from_bytes(p[3:5], "big")
+                m = rng.choice([17, 33, 50, 95, 200, 1001])
+                return bytes(p[:5 + n]) + bytes([23, 3, p[2]]) + m.to_bytes(2, "big") + rng.randbytes(m) + bytes(p[5 + n:])
+            if kind == "overwrite":
+                j = rng.randrange(len(p))
+                p[j:j + 20] = rng.randbytes(len(p[j:j + 20]))
+            else:
+                p[rng.randrange(len(p))] ^= 1 << rng.randrange(8)
+            return bytes(p)
+        items[i] = reframe(it, flows[it.conn].ep, mod)
+
+
+def make_scene(rng, damaged=False):
     n = rng.choice([1, 2, 3, 4])
     eps = gen.distinct_eps(rng, n, rng.choice(["random", "same-client-host", "same-client-port"]))
     flows = []
     for i, ep in enumerate(eps):
-        if rng.random() < 0.6:
+        if rng.random() < 0.6 and not (damaged and i == 0):
             s = quicsynth.random_qspec(rng, napp=rng.choice([4, 8]))
             s.c_scid_len = rng.choice([0, 1, 1, 8])
             s.s_scid_len = rng.choice([0, 1, 1, 8])
@@ -40,8 +76,15 @@ def make_scene(rng):
             fl.label = f"quic-{s.suite:04X}-cid{s.c_scid_len}/{s.s_scid_len}"
             flows.append(fl)
         else:
-            flows.append(gen.random_tls_flow(rng, i, ep=ep, nmax=5, min_records=1))
+            kw = {}
+            if damaged:
+                kw["segkinds"] = ("records", "whole")
+                if rng.random() < 0.6:       # block ciphers are the ones with a notion of a record of the wrong size
+                    kw["version"], kw["code"] = rng.choice([(v, c) for v, c, _, p in suites.matrix() if p["mode"] == "CBC"])
+            flows.append(gen.random_tls_flow(rng, i, ep=ep, nmax=5, min_records=1, **kw))
     items = scene.stamp(scene.merge(flows, rng, "random"), rng)
+    if damaged:
+        damage(items, flows, rng)
     keys = scene.keylog_text(flows, rng)
     LAST_DSB_CAPTURE[0] = ns.pcapng([("dsb", keys)] + [("pkt", it.ts, it.frame) for it in items])       # the same capture with its secrets embedded
     return flows, scene.capture(items), keys
@@ -56,7 +99,7 @@ def sha(b):
 
 def build(tier, seed):
     thorough = tier == "thorough"
-    cases = [{"id": f"proc-{i}", "kind": "proc", "i": i} for i in range(60 if thorough else 8)]
+    cases = [{"id": f"proc-{i}", "kind": "proc", "i": i} for i in range(60 if thorough else 12)]
     cases += [{"id": f"inproc-{i}", "kind": "inproc", "i": i} for i in range(1000 if thorough else 60)]
     real = corpus.quic_captures(big=thorough) + corpus.tls_captures()[::4]
     for name, path, _, _ in (real if thorough else real[1:8:2]):        # the repository's real captures (real QUIC stacks: many connection IDs per session)
@@ -67,7 +110,8 @@ def build(tier, seed):
         return eval_proc(case, rng, thorough) if case["kind"] == "proc" else eval_inproc(case, rng)
 
     return dict(cases=cases, evalfn=evalfn, level="exploration", min_nontrivial=30,
-                rule="process-boundary: per capture 8 (quick) / 24 (thorough) fresh interpreters over PYTHONHASHSEED x working directory x environment x repetition; "
+                rule="process-boundary: per capture 12 (quick) / 26 (thorough) fresh interpreters over PYTHONHASHSEED x working directory x environment (TZ, locale, HOME, PYTHONOPTIMIZE 1/2, "
+                     "UTF-8 mode, ASCII streams) x repetition; every second synthetic capture damaged (shortened/junk records, flipped and overwritten payloads); "
                      "in-process: pairs (A, B) of captures run back to back in one process vs. B alone. Captures: 1-4 connections, QUIC with zero-length/1-byte CIDs and "
                      "NEW_CONNECTION_ID on both sides, TLS mixed in, shared hosts. Class = (mode, variant, scene shape); non-trivial = the reference run exported packets "
                      "and the variant's digest was compared",
@@ -85,7 +129,7 @@ def eval_proc(case, rng, thorough):
         flows, cap = [_Real("real:" + name)], open(path, "rb").read()
         extra = xo + rng.choice([[], ["-a"], ["-m"]])
     else:
-        flows, cap, keys = make_scene(rng)
+        flows, cap, keys = make_scene(rng, damaged=case["i"] % 2 == 1)
         extra = rng.choice([[], ["-a"], ["-m"], ["-c"]])
     files = {"in.pcapng": cap, "keys.log": keys}
     argv = ["-i", "{dir}/in.pcapng", "-o", "{dir}/out.pcapng", "-s", "{dir}/keys.log"] + extra
@@ -96,6 +140,9 @@ def eval_proc(case, rng, thorough):
     variants.append(("hashseed-random", {}, None))
     variants.append(("cwd-root", {"PYTHONHASHSEED": "5"}, "/"))
     variants.append(("cwd-shm+env", {"PYTHONHASHSEED": "6", "TZ": "Pacific/Kiritimati", "LANG": "tr_TR.UTF-8", "LC_ALL": "C", "COLUMNS": "20", "HOME": "/nonexistent"}, "/dev/shm"))
+    # the interpreter's own switches are environment as well: optimised mode (asserts and docstrings compiled away), UTF-8 mode, unbuffered and ASCII-only standard streams
+    variants.append(("env-pyopt", {"PYTHONHASHSEED": "9", "PYTHONOPTIMIZE": "1"}, None))
+    variants.append(("env-pyopt2+utf8", {"PYTHONHASHSEED": "10", "PYTHONOPTIMIZE": "2", "PYTHONUTF8": "1", "PYTHONIOENCODING": "ascii", "PYTHONUNBUFFERED": "1"}, None))
     if thorough:
         variants.append(("repeat", {"PYTHONHASHSEED": "0"}, None))
         variants.append(("env-tz", {"PYTHONHASHSEED": "7", "TZ": "UTC-14"}, None))
